@@ -1183,3 +1183,26 @@ def calls_through_helpers(fn, depth=2):
                 out.append((c, f))
     walk(fn, depth, {fn.key})
     return out
+
+
+def minishard_buffer_attr(repo):
+    """Name of MiniShard's reorder buffer attribute (the dict in which
+    early chunks are parked), found structurally: the self attribute that
+    MiniShard.__init__ binds to `OnDiskBytesDict()` or `dict()`."""
+    try:
+        init = repo.func("sharded_file_accessor", "MiniShard.__init__")
+    except AnalysisError:
+        return "_chunk_buffer"
+    for h in helper_closure(init):
+        for st in stmts_of(h.node):
+            if not isinstance(st, (ast.Assign, ast.AnnAssign)) or \
+                    st.value is None:
+                continue
+            tgt = st.targets[0] if isinstance(st, ast.Assign) else st.target
+            if isinstance(tgt, ast.Attribute) and isinstance(
+                    tgt.value, ast.Name) and tgt.value.id == "self":
+                names = {(dotted(c.func) or "") for c in ast.walk(st.value)
+                         if isinstance(c, ast.Call)}
+                if "OnDiskBytesDict" in names or names == {"dict"}:
+                    return tgt.attr
+    return "_chunk_buffer"
